@@ -135,7 +135,11 @@ def main(argv=None) -> int:
             rc = 0
             tree = Tree()
             for p in sorted(PROPS):
-                c, *_ = run_property(p, a.tier, tree=tree, write=not a.no_write)
+                try:
+                    c, *_ = run_property(p, a.tier, tree=tree, write=not a.no_write)
+                except AnalysisError as e:
+                    print(f"ANALYSIS-ERROR property={p} {e}")
+                    c = 2
                 rc = max(rc, c)
             return rc
         if not a.prop:
